@@ -20,6 +20,17 @@ func (b Bundle) Fragment(mtu int) (bs []Bundle, err error) {
 		return
 	}
 
+	// A bundle which already fits is returned as itself. The estimation below is made for fragments of this bundle
+	// and might be too pessimistic for the bundle as a whole.
+	var whole bytes.Buffer
+	if err = b.WriteBundle(&whole); err != nil {
+		return
+	}
+	if whole.Len() <= mtu {
+		bs = []Bundle{b}
+		return
+	}
+
 	var (
 		cborOverhead     = 2
 		extFirstOverhead int
